@@ -1,16 +1,20 @@
 #!/bin/sh
 # usage: confirm_mutant.sh <seeded-id>
-# In a scratch worktree of /repo HEAD: demo passes clean, patch applies, builds, demo fails, suite matches baseline.
+# In a scratch worktree of /repo HEAD (removed afterwards): the demonstration passes on the clean tree,
+# the patch applies and builds, the demonstration fails with it, and the pinned suite still passes.
+# Writes /verif/seeded/<id>/meta.json.
 ID=$1; D=/verif/seeded/$ID; WT=/tmp/confirm-$ID
 . /verif/env.sh
+HEAD=$(git -C /repo rev-parse --short HEAD)
 git -C /repo worktree add -q --detach $WT HEAD || exit 2
 cleanup() { git -C /repo worktree remove --force $WT; }
 cd $WT
-TEST=$(grep -o 'func Test[A-Za-z0-9_]*' $D/demo_test.go | head -1 | sed 's/func //')
 RUN=$(grep -o 'func Test[A-Za-z0-9_]*' $D/demo_test.go | sed 's/func //' | paste -sd'|')
 cp $D/demo_test.go zz_demo_$$_test.go
 go test -vet=off -count=1 -run "^($RUN)\$" . > /tmp/confirm-$ID.clean.log 2>&1; CLEAN=$?
-git apply $D/patch.diff || { echo "$ID: PATCH DOES NOT APPLY"; cleanup; exit 1; }
+APPLY=0; git apply $D/patch.diff || APPLY=1
+BUILD=1; MUT=0; SUITE="not run"
+if [ $APPLY = 0 ]; then
 go build ./... > /tmp/confirm-$ID.build.log 2>&1; BUILD=$?
 go test -vet=off -count=1 -run "^($RUN)\$" . > /tmp/confirm-$ID.mut.log 2>&1; MUT=$?
 rm zz_demo_$$_test.go
@@ -25,8 +29,23 @@ for l in open('/tmp/confirm-$ID.suite.json'):
     if e.get('Test') and e.get('Action') in ('pass','fail','skip'):
         res[e['Package']+'::'+e['Test']]=e['Action']
 missing=sorted(k for k in base if res.get(k)!='pass')
-print(len(missing), ";".join(missing[:3]))
+print(len(missing))
 PY
 )
-echo "$ID: demo_clean_exit=$CLEAN build_exit=$BUILD demo_mutant_exit=$MUT suite_not_passing=$SUITE"
+fi
+PROP=${ID%%-*}
+python3 - <<PY
+import json,re
+notes=open('$D/notes.md').read()
+m={"id":"$ID","breaks_property":"$PROP","origin":"written by an independent sub-agent given only the text of the property and a scratch worktree of /repo (nothing from /verif)",
+ "what_and_needs": notes.strip()[:2500],
+ "confirmed_against_repo_commit":"$HEAD",
+ "confirmation":{"how":"tools/confirm_mutant.sh $ID in a scratch worktree of /repo HEAD (removed afterwards)",
+   "demo_on_clean_tree_exit": $CLEAN, "patch_applies": $APPLY==0, "go_build_exit": $BUILD, "demo_with_patch_exit": $MUT,
+   "pinned_suite_tests_not_passing_with_patch": "$SUITE", "demo_tests": "$RUN"},
+ "confirmed": ($CLEAN==0 and $APPLY==0 and $BUILD==0 and $MUT!=0 and "$SUITE"=="0")}
+json.dump(m,open('$D/meta.json','w'),indent=1)
+print("$ID confirmed=%s clean=%s apply=%s build=%s mutant=%s suite_missing=%s"%(m['confirmed'],$CLEAN,$APPLY,$BUILD,$MUT,"$SUITE"))
+PY
+rm -f /tmp/confirm-$ID.*.log /tmp/confirm-$ID.suite.json
 cleanup
